@@ -311,10 +311,7 @@ def explore_c05(rng, tier, res, deep=False):
         qs = []
         for _ in range(per):
             qs.append("$[?" + g.logical_or(1) + "]" if rng.random() < 0.7 else g.query())
-        reals, out = compile_cases(res, desc, qs, "C05")
-        for q, rl, ol in zip(qs, reals, out[1::2]):
-            if ol.startswith("valid"):
-                res.nontrivial.add((json.dumps(fns), q))
+        compile_cases(res, desc, qs, "C05")
 
 
 # ---------------------------------------------------------------------------------------------
